@@ -319,6 +319,9 @@ class Unit:
             text, _n = splice.closure_specs(text, it.get("closure_specs", []))
         if "R-SPAWN" in rules:
             text, hoisted = splice.hoist_spawn(text, it.get("spawn", []))
+        if "R-FLATMAP" in rules:
+            text, hoisted_fm = splice.hoist_flat_map(text, it.get("flat_map", []))
+            hoisted = hoisted + hoisted_fm
         if rules:
             before_lines = text.count("\n")
             text = splice.desugar(text, rules, self.desugar_counts)
@@ -345,7 +348,7 @@ class Unit:
                 for (cfg, htext, line_off) in hoisted:
                     # the hoisted task body is verified like any other function of the unit, under its declared contract
                     if rules:
-                        htext = splice.desugar(htext, [r for r in rules if r not in ("R-SPAWN", "R-REC")], {})
+                        htext = splice.desugar(htext, [r for r in rules if r not in ("R-SPAWN", "R-REC", "R-FLATMAP", "R-SEGMENT")], {})
                     if "R-REC" in rules:
                         htext, _ = splice._r_rec(htext, splice.FnShape(text).name)
                     if "R-SELF" in rules:
@@ -353,7 +356,7 @@ class Unit:
                     hit = dict(cfg)
                     hit["path"] = it["path"].rsplit("::", 1)[0] + "::" + cfg["name"]
                     hit["kind"] = "fn" if it["kind"] == "trait_fn" else it["kind"]
-                    gen.add("// ---- R-SPAWN: body of the task spawned in %s, hoisted verbatim" % path, ("gen", "item-header"))
+                    gen.add("// ---- %s: body of the %s in %s, hoisted verbatim" % ((("R-FLATMAP", "flat_map closure") if "elem" in cfg else ("R-SPAWN", "task spawned")) + (path,)), ("gen", "item-header"))
                     hid = hit["path"].replace("::", ".")
                     hseg = self._splice(htext, hit, file, item.line_start + line_off, True, "verify", hid, False)
                     hseg.render(gen)
